@@ -26,6 +26,8 @@ structure SMetric where
   source : Bytes
   hidden : Bool := false
   lvs : List LVal := []
+  /-- the declared bucket boundaries of a histogram, as the source spells them (`Metric.Buckets`) -/
+  buckets : Bytes := []
 deriving Repr, DecidableEq
 
 /-- `Store.Metrics`: name ↦ metrics, as an association list in first-insertion order -/
@@ -53,7 +55,7 @@ def addScan (copyExpiry : Bool) (m : SMetric) : List SMetric → Nat → Option 
     if v.prog ≠ m.prog then addScan copyExpiry m rest (i + 1) dupe
     else if v.typ ≠ m.typ then addScan copyExpiry m rest (i + 1) dupe
     else if v.source ≠ m.source then addScan copyExpiry m rest (i + 1) dupe
-    else if v.keys ≠ m.keys then (m, some i)                   -- `break`
+    else if v.keys ≠ m.keys ∨ v.buckets ≠ m.buckets then (m, some i)   -- the two `break`s: other keys, or other bucket boundaries (other counts)
     else addScan copyExpiry (v.lvs.foldl (copyOne copyExpiry) m) rest (i + 1) (some i)
 
 inductive AddErr | kind
